@@ -74,7 +74,7 @@ func runChainCmd(args []string) {
 	st := Stats{ByKind: map[string]int{}, TxClass: map[string]int{}, MsgKindOk: map[string]int{}, MsgKindRej: map[string]int{}}
 	var sb, hdr strings.Builder
 	resetIntern()
-	hdr.WriteString("From Coq Require Import String.\nFrom Settlus Require Import Base.Prelude Base.Hex Settlement.Model Oracle.Model Chain.Model Exec.Run.\nOpen Scope string_scope. Open Scope Z_scope.\n")
+	hdr.WriteString("From Coq Require Import String.\nFrom Settlus Require Import Base.Prelude Base.Hex Settlement.Model Oracle.Model Chain.Model Exec.Run Exec.Checkers.\nOpen Scope string_scope. Open Scope Z_scope.\n")
 	var caseNames []string
 	seen := map[string]bool{}
 	for i, h := range hs {
@@ -159,6 +159,8 @@ func main() {
 	switch os.Args[1] {
 	case "smoke":
 		smoke()
+	case "arith":
+		runArithCmd(os.Args[2:])
 	case "chain":
 		runChainCmd(os.Args[2:])
 	default:
